@@ -312,7 +312,10 @@ class DemoStorage(ConflictResolvingStorage):
         with self._lock:
             while 1:
                 oid = ZODB.utils.p64(self._next_oid)
-                if oid not in self._issued_oids:
+                if oid not in self._issued_oids and \
+                        oid not in self._stored_oids:
+                    # (_stored_oids: a record the transaction in progress
+                    # stores under an id we did not issue -- a copy)
                     try:
                         load_current(self.changes, oid)
                     except ZODB.POSException.POSKeyError:
